@@ -1,10 +1,12 @@
 """Bounded stand-ins (labelled bounded, never counted as proved): small in-package tests injected with -overlay."""
 import json, os, re, subprocess
 
-TESTS = {"C01": ("c01_accept_test.go.txt", "TestVerifBoundedC01", "Parse accepts <=> encoding/json.Valid with an object/array root and finite numbers: every byte string over a 13-symbol alphabet (brackets, separators, quote, digits, minus, letters, space) up to length 5 (quick) / 6 (thorough), plus 60 valid and near-miss fragments in 10 wrappers at 15 paddings around the 64-byte block and 8K thresholds"),
+TESTS = {"C02": ("c04_strings_test.go.txt", "TestVerifBoundedC04", "string values and keys exposed by the iterators equal the reference decoding (the C04 stand-in: the copying string kernel has no discharged contract)"),
+         "C01": ("c01_accept_test.go.txt", "TestVerifBoundedC01", "Parse accepts <=> encoding/json.Valid with an object/array root and finite numbers: every byte string over a 13-symbol alphabet (brackets, separators, quote, digits, minus, letters, space) up to length 5 (quick) / 6 (thorough), plus 60 valid and near-miss fragments in 10 wrappers at 15 paddings around the 64-byte block and 8K thresholds"),
          "C04": ("c04_strings_test.go.txt", "TestVerifBoundedC04", "string kernels and their Go glue through Parse (copy and in-place mode) vs a reference decoder: all bodies over a 9-symbol alphabet (letters, backslash, quote, u, n, hex digits, a control byte) up to length 4 (quick) / 5 (thorough) plus selected escapes and surrogate pairs, at 12 chunk offsets and 3 distances from the end of the input"),
          "C08": ("c08_ndjson_test.go.txt", "TestVerifBoundedC08", "ParseND succeeds <=> every non-blank line parses, and exposes those documents in order: all sequences of 1-2 (and a sample of 3) lines from a pool of 20 valid / invalid lines, 4 separators (LF, CRLF, blank lines), 3 endings, 5 paddings across 64-byte blocks"),
          "C11": ("c11_roundtrip_test.go.txt", "TestVerifBoundedC11", "Deserialize(Serialize(t)) exposes the same typed values, float flags, strings and nesting as t: 10 structured + 400 (quick) / 4000 (thorough) seeded-random documents and 20 ndjson inputs, each also after SetNull and DeleteElems, x 4 compression modes, deserialized by a reused Serializer in another mode into a reused destination and by a fresh Serializer"),
+         "C12": ("c12_elements_test.go.txt", "TestVerifBoundedC12", "Object.Parse / Elements.Lookup vs FindKey on 3000 (quick) / 30000 (thorough) generated objects, parsed into a fresh and into a reused *Elements: members in document order, every key looked up finds the member plain traversal finds, no key of the previous object survives in a reused Index"),
          "C18": ("c18_float_test.go.txt", "TestVerifBoundedC18", "appendFloat vs encoding/json on powers of ten +-2ulp, every binade x 4 mantissas, 2000 smallest subnormals, seeded random bit patterns")}
 
 def run(prop, tier, seed, here, repo, env, scratch):
